@@ -59,6 +59,17 @@ def run_one(m: dict) -> dict:
             return {"id": m["id"], "status": "skipped", "why": why}
         env = dict(os.environ, VERIF_REPO=str(dst), VERIF_EVIDENCE_DIR=str(tmp / "ev"),
                    VERIF_REPLAY_DIR=str(tmp / "replay"), VERIF_TIER="quick")
+        if m["property"] == "ALL":
+            # benign variant: every check must stay silent
+            rcs, outs = [], []
+            for i in range(1, 21):
+                r = subprocess.run([sys.executable, "-m", f"checks.c{i:02d}", "--no-selftest"], cwd=VERIF, env=env,
+                                   capture_output=True, text=True, timeout=600)
+                if r.returncode != 0 or "VIOLATION" in r.stdout:
+                    rcs.append(r.returncode)
+                    outs.append((r.stdout + r.stderr)[-700:])
+            ok = not rcs
+            return {"id": m["id"], "status": "ok" if ok else "MISS", "rc": rcs, "tail": "\n".join(outs)}
         mod = f"checks.{m['property'].lower()}"
         r = subprocess.run([sys.executable, "-m", mod, "--no-selftest"], cwd=VERIF, env=env,
                            capture_output=True, text=True, timeout=600)
